@@ -158,6 +158,12 @@ def corr_pred(res, games, kind_on_mismatch, label, which=("win", "draw", "rank")
                            for a in range(len(ps)) for b in range(a + 1, len(ps)))
                 if safe and not hp and [a for (a, _) in r] != [a for (a, _) in mr]:
                     res.fail(kind_on_mismatch, "%s: predict_rank ranks %r differ from the model %r" % (label, r, mr), inp)
+    if not hp and games:
+        # tier B-exact: the formula the code evaluates, recorded operation by operation, against the model on 192-bit floats
+        import exact
+        ex = games[:: max(1, len(games) // size(res, 16, 48))]
+        for wh in which:
+            exact.exact_predict_games(res, [(g["kind"], g["beta"], g["teams"]) for g in ex], wh, label, kind_on_mismatch, drv=drv)
 
 
 def permuted(g, perm, rng=None):
